@@ -59,6 +59,9 @@ type Case struct {
 	// other files in the prefix directory of both stores before the coexistence checks:
 	// lo hi (damaged chunks of both formats under lower / higher IDs), tmp, junk (mixed_test.go)
 	Neighbours []string `json:"neighbours,omitempty"`
+	// the compressed / the uncompressed client of the coexistence checks is opened with SkipVerify
+	SkipC bool `json:"skip_verify_compressed,omitempty"`
+	SkipU bool `json:"skip_verify_uncompressed,omitempty"`
 	// StoreChunk of both formats in a child process whose files cannot grow beyond a limit (short_test.go)
 	Short *ShortCase `json:"short,omitempty"`
 	// what an interrupted writer left in the prefix directory of store 1 (store_test.go)
@@ -125,6 +128,8 @@ func genCase(t *rapid.T) Case {
 			c.Neighbours = append(c.Neighbours, k)
 		}
 	}
+	c.SkipC = rapid.Bool().Draw(t, "skipc1") && rapid.Bool().Draw(t, "skipc2")
+	c.SkipU = rapid.Bool().Draw(t, "skipu1") && rapid.Bool().Draw(t, "skipu2")
 	short := true // 1 in 32 (thorough: 8): a child process per case
 	for i := 0; i < hx.Pick(5, 3); i++ {
 		if !rapid.Bool().Draw(t, "short") {
@@ -363,6 +368,11 @@ type model struct {
 	everBoth bool
 	ignore   map[string]bool // planted leftovers: theirs to stay or go
 	nbr      []*neighbour    // other files in the prefix directory (mixed_test.go)
+	skip     map[bool]bool   // the client of that format is opened with SkipVerify
+}
+
+func (m *model) opts(unc bool) desync.StoreOptions {
+	return desync.StoreOptions{Uncompressed: unc, SkipVerify: m.skip[unc]}
 }
 
 func (m *model) present(unc bool) bool { return m.state[unc] != absent }
@@ -426,12 +436,19 @@ func (m *model) readSig(unc bool) string {
 func (m *model) observe(o *hx.Outcome, base string, unc bool, n int, repair bool) {
 	me, them := modeName(unc), modeName(!unc)
 	own, foreign := m.state[unc], m.state[!unc]
-	st, err := desync.NewLocalStore(base, desync.StoreOptions{Uncompressed: unc})
+	st, err := desync.NewLocalStore(base, m.opts(unc))
 	if err != nil {
 		o.Fail("C20:store:open", "NewLocalStore(%s): %v", me, err)
 		return
 	}
 	where := fmt.Sprintf("%s store {.cacnk:%s raw:%s}, %s client", m.label, m.state[false], m.state[true], me)
+	if m.skip[unc] {
+		where += " opened with SkipVerify"
+		o.Class("coexist:skip-verify-client", "coexist:verify:skip-verify-store", "coexist:verify:skip-verify+"+me)
+		if m.state[!unc] == corrupt {
+			o.Class("coexist:verify:skip-verify+" + me + ":other-format-file-damaged")
+		}
+	}
 
 	// HasChunk
 	has, err := st.HasChunk(m.id)
@@ -466,7 +483,8 @@ func (m *model) observe(o *hx.Outcome, base string, unc bool, n int, repair bool
 			o.Fail(m.readSig(unc)+":wrong-data", "%s: GetChunk of a valid %s file (%s) returned %d bytes that differ from the %d-byte chunk", where, me, m.origin[unc], len(got), len(m.data))
 		}
 	case corrupt:
-		if err == nil {
+		// a SkipVerify client hands out what it finds unchecked; only the other format's data is none of its business
+		if err == nil && (!m.skip[unc] || bytes.Equal(got, m.data)) {
 			sig := "C20:read:corrupt-accepted"
 			if foreign == valid {
 				sig = "C20:coexist:saw-other-format"
@@ -500,7 +518,7 @@ func (m *model) observe(o *hx.Outcome, base string, unc bool, n int, repair bool
 			o.Fail("C20:http:own-not-served", "%s: GET %s answered %d with %s, which is not the %s form of the chunk", where, ownURL, code, short(body), me)
 		}
 	case corrupt:
-		if code == http.StatusOK {
+		if code == http.StatusOK && !m.skip[unc] {
 			sig := "C20:http:served-corrupt"
 			if foreign == valid {
 				sig = "C20:http:served-other-format"
@@ -529,7 +547,7 @@ func (m *model) observe(o *hx.Outcome, base string, unc bool, n int, repair bool
 	if err != nil {
 		o.Fail("C20:verify:error", "%s: Verify(n=%d, repair=%v): %v", where, n, repair, err)
 	}
-	if out := strings.TrimSpace(m.verifyNeighbours(o, base, unc, repair, w.String(), where)); out != "" && own != corrupt {
+	if out := strings.TrimSpace(m.verifyNeighbours(o, base, unc, repair, !m.skip[unc], w.String(), where)); out != "" && own != corrupt {
 		sig := "C20:read:verify-complains"
 		if own == absent || foreign == corrupt {
 			sig = "C20:coexist:verified-other-format"
@@ -548,7 +566,7 @@ func (m *model) observe(o *hx.Outcome, base string, unc bool, n int, repair bool
 // prune runs Prune of one client and checks what is left.
 func (m *model) prune(o *hx.Outcome, base string, unc bool, keep bool) {
 	me := modeName(unc)
-	st, err := desync.NewLocalStore(base, desync.StoreOptions{Uncompressed: unc})
+	st, err := desync.NewLocalStore(base, m.opts(unc))
 	if err != nil {
 		o.Fail("C20:store:open", "NewLocalStore(%s): %v", me, err)
 		return
@@ -731,6 +749,7 @@ func run(c Case) (o hx.Outcome) {
 	os.Mkdir(base1, 0o755)
 	m1 := newModel("desync-written", sid, id, data)
 	m1.origin[false] = "desync-written"
+	m1.skip = map[bool]bool{false: c.SkipC, true: c.SkipU}
 	firstUnc := c.Mode == "uncompressed"
 	var desyncFrame *frameInfo
 	var provs [2]ProvSpec
@@ -754,7 +773,7 @@ func run(c Case) (o hx.Outcome) {
 		if step == 0 && len(planted) > 0 {
 			seesNothing(&o, base1, id, "desync-written store holding only leftovers of interrupted writers ("+leftoverKey(c.Leftovers)+")")
 		}
-		st, err := desync.NewLocalStore(base1, desync.StoreOptions{Uncompressed: unc})
+		st, err := desync.NewLocalStore(base1, m1.opts(unc))
 		if err != nil {
 			o.Fail("C20:store:open", "NewLocalStore(%s): %v", me, err)
 			continue
@@ -779,7 +798,7 @@ func run(c Case) (o hx.Outcome) {
 		crossEntropy = crossEntropy || cross
 		if step == 0 && ok {
 			// only this format exists: the other client must not see it
-			ost, err := desync.NewLocalStore(base1, desync.StoreOptions{Uncompressed: !unc})
+			ost, err := desync.NewLocalStore(base1, m1.opts(!unc))
 			if err == nil {
 				if has, _ := ost.HasChunk(id); has {
 					o.Fail("C20:coexist:saw-other-format", "desync-written store with only the %s file: HasChunk of the %s client is true", me, modeName(!unc))
@@ -801,6 +820,7 @@ func run(c Case) (o hx.Outcome) {
 	base2 := filepath.Join(root, "s2")
 	os.MkdirAll(filepath.Join(base2, sid[:4]), 0o755)
 	m2 := newModel("casync-written", sid, id, data)
+	m2.skip = m1.skip
 	damaged := append([]byte(nil), data...)
 	damaged[int(c.Seed%uint64(len(damaged)))] ^= 0x40
 	var otherFrame *frameInfo
@@ -904,7 +924,7 @@ func run(c Case) (o hx.Outcome) {
 		runCLI(&o, c, data)
 		cliRan = true
 		cl := c.CLI.norm()
-		cliKey = fmt.Sprintf("%s/%s/%s/%s/%v/%s/%d/%v", cl.Cmd, cl.Key, cl.Arg, cl.Cwd, cl.KeyUnc, cl.Extra, cl.Pieces, cl.SrcUnc)
+		cliKey = fmt.Sprintf("%s/%s/%s/%s/%v/%s/%d/%v/%v", cl.Cmd, cl.Key, cl.Arg, cl.Cwd, cl.KeyUnc, cl.Extra, cl.Pieces, cl.SrcUnc, cl.KeySkip)
 	}
 
 	// ---- evidence
@@ -964,8 +984,9 @@ func run(c Case) (o hx.Outcome) {
 		"first_writer": c.Mode, "s2_cacnk": c.Cacnk, "s2_raw": raw0, "corrupt": c.Corrupt, "first": c.First, "n": c.N,
 		"repair": c.Repair, "keep": c.Keep, "desync_frame": dfd, "other_frame": ofd,
 		"prov_first": provs[0].key(), "prov_second": provs[1].key(), "cli": cliKey,
-		"leftovers": leftoverKey(c.Leftovers), "conc": concKey, "neighbours": strings.Join(nbKinds, "+"), "short": shortKey}
-	o.Key = fmt.Sprintf("%s/%d/%s/%s/%s/%s/%s/%s/%v/%v/%s/%s", buildName, len(data), c.Fill, c.Mode, c.Cacnk, raw0, c.Corrupt, c.First, c.Repair, c.Keep, provs[0].key(), provs[1].key()) + "/" + cliKey + "/" + leftoverKey(c.Leftovers) + "/" + concKey + "/" + strings.Join(nbKinds, "+") + "/" + shortKey
+		"leftovers": leftoverKey(c.Leftovers), "conc": concKey, "neighbours": strings.Join(nbKinds, "+"), "short": shortKey,
+		"skip_verify_compressed": c.SkipC, "skip_verify_uncompressed": c.SkipU}
+	o.Key = fmt.Sprintf("%s/%d/%s/%s/%s/%s/%s/%s/%v/%v/%s/%s", buildName, len(data), c.Fill, c.Mode, c.Cacnk, raw0, c.Corrupt, c.First, c.Repair, c.Keep, provs[0].key(), provs[1].key()) + "/" + cliKey + "/" + leftoverKey(c.Leftovers) + "/" + concKey + "/" + strings.Join(nbKinds, "+") + "/" + shortKey + fmt.Sprintf("/%v/%v", c.SkipC, c.SkipU)
 	return o
 }
 
@@ -985,6 +1006,9 @@ func required() []string {
 	r = append(r, provRequired()...)
 	r = append(r, storeRequired()...)
 	r = append(r, mixedRequired()...)
+	r = append(r, "coexist:verify:skip-verify-store", "coexist:verify:skip-verify+uncompressed", "coexist:verify:skip-verify+compressed",
+		"coexist:verify:skip-verify+uncompressed:other-format-file-damaged", "coexist:verify:skip-verify+compressed:other-format-file-damaged",
+		"coexist:verify:skip-verify:damaged-other-format-neighbour", "coexist:verify:skip-verify:own-damaged-chunk-not-demanded")
 	r = append(r, shortRequired()...)
 	r = append(r, "build:desync="+desyncImpl+",other="+other.Name())
 	// (the driver checks the required classes separately for each build)
@@ -994,7 +1018,7 @@ func required() []string {
 var spec = &hx.Spec[Case]{
 	ID:    "C20",
 	Level: "exploration",
-	Rule: "cases = (chunk of 1 byte .. 1 MiB: zero/random/text/mixed; desync client that writes first; for each of the two StoreChunk calls into the desync-written store the provenance of the chunk: NewChunk | NewChunkWithID | GetChunk from a source LocalStore | through desync.Cache | through desync.Copy | through RemoteHTTP from a chunk server | PUT to a chunk server over the destination, with source/wire format same as or opposite to the destination, SkipVerify of the source, Data() called before storing or not; 0..3 leftovers of interrupted writers (.tmp-cacnk.<id>, .tmp-cacnk.<id>.cacnk, other IDs, random suffixes; empty, partial or complete content of either format) planted in the prefix directory before the first or the second StoreChunk; in 1 of 32 cases (thorough: 8) additionally a directory into which a compressed and an uncompressed client (or two of each, or three of one format) store one ID at the same time for 6..12 (thorough 40..120) rounds with shifting start offsets; 0..4 other files in the prefix directory of both stores before the coexistence checks (damaged chunks of both formats under IDs sorting below and above the chunk's, a temp leftover, a non-chunk file); in 1 of 32 cases (thorough: 8) additionally StoreChunk of both formats in a child process under RLIMIT_FSIZE below/at/above the on-disk size of either format; a second store directory holding <id>.cacnk in {absent, one-shot frame, streaming frame without content size, corrupt} written by the other zstd implementation and <id> in {absent, valid, corrupt}; client order, verify workers/repair, prune keep set); " +
+	Rule: "cases = (chunk of 1 byte .. 1 MiB: zero/random/text/mixed; desync client that writes first; for each of the two StoreChunk calls into the desync-written store the provenance of the chunk: NewChunk | NewChunkWithID | GetChunk from a source LocalStore | through desync.Cache | through desync.Copy | through RemoteHTTP from a chunk server | PUT to a chunk server over the destination, with source/wire format same as or opposite to the destination, SkipVerify of the source, Data() called before storing or not; 0..3 leftovers of interrupted writers (.tmp-cacnk.<id>, .tmp-cacnk.<id>.cacnk, other IDs, random suffixes; empty, partial or complete content of either format) planted in the prefix directory before the first or the second StoreChunk; in 1 of 32 cases (thorough: 8) additionally a directory into which a compressed and an uncompressed client (or two of each, or three of one format) store one ID at the same time for 6..12 (thorough 40..120) rounds with shifting start offsets; 0..4 other files in the prefix directory of both stores before the coexistence checks (damaged chunks of both formats under IDs sorting below and above the chunk's, a temp leftover, a non-chunk file); each of the two clients of the coexistence checks opened with SkipVerify in 1 of 4 cases; in 1 of 32 cases (thorough: 8) additionally StoreChunk of both formats in a child process under RLIMIT_FSIZE below/at/above the on-disk size of either format; a second store directory holding <id>.cacnk in {absent, one-shot frame, streaming frame without content size, corrupt} written by the other zstd implementation and <id> in {absent, valid, corrupt}; client order, verify workers/repair, prune keep set); " +
 		"the package runs once per build (desync=klauspost/other=libzstd and desync=libzstd/other=klauspost); " +
 		"non-trivial = a frame with at least one compressed-type block was decoded across implementations (other decodes desync's file, or desync reads the other's file), or the generated store held both formats of the ID (the store of a command-line case always does); " +
 		"distinct by (build, length, fill, first writer, .cacnk state, raw state, corruption kind, client order, repair, keep, provenance of both stored chunks)",
@@ -1005,6 +1029,7 @@ var spec = &hx.Spec[Case]{
 		"github.com/DataDog/zstd v1.5.2 (bundled libzstd 1.5.2) stands for the reference libzstd",
 		"coexistence is checked for LocalStore and desync.NewHTTPHandler on top of it; S3/SFTP stores belong to C16",
 		"what Verify prints or removes for a corrupt file of the client's own format is not judged here (C16)",
+		"a client opened with SkipVerify hands out and verifies its own files unchecked on the unchanged tree (Verify reports nothing): for such a client nothing is demanded about its own damaged or corrupt files (GetChunk, HTTP GET, Verify), everything about the other format's files stays demanded (never read, served, mentioned, removed)",
 		"mixed prefix directories: damaged chunks are planted under chosen IDs (the chunk's first four hex digits, then 0…c/0…d/f…c/f…d); of a client's own damaged chunks only 'reported by Verify' and 'gone after Verify with repair' are demanded, independent of where they sort among files of no concern to it",
 		"short writes: RLIMIT_FSIZE in a re-exec'd child of the test binary (SIGXFSZ ignored); the on-disk size of the compressed form is computed with desync.Compress of the same build; leftover temp files after a failed store are not judged",
 		"planted leftovers (.tmp-cacnk*) may stay or disappear at any time without a verdict (Prune removes them: C16); they must never be taken for the chunk, and a StoreChunk that returns nil must have produced the client's own object whatever lies in the directory",
@@ -1051,6 +1076,7 @@ func TestEnum(t *testing.T) {
 						c := Case{Size: "enum", Fill: fill, Len: l, Seed: uint64(l)*977 + uint64(k), Mode: mode, Cacnk: cacnk, Raw: raw,
 							Corrupt: []string{"otherdata", "garbage", "empty", "truncated"}[k%4],
 							First:   []string{"compressed", "uncompressed"}[(k/2)%2], N: 1 + k%3, Repair: k%3 == 0, Keep: k%5 == 0}
+						c.SkipU, c.SkipC = k%4 == 1, k%4 == 2 || k%8 == 5
 						// every subset of the neighbours of a mixed prefix directory, walking through the grid
 						for bi, nk := range neighbourKinds {
 							if (k/3)>>bi&1 == 1 {
@@ -1198,7 +1224,7 @@ func TestEnumCLI(t *testing.T) {
 				if k%hx.Shards() != hx.Shard() {
 					continue
 				}
-				cl := CLICase{Cmd: cliCmds[(i+ci)%len(cliCmds)], Key: ks.id, Arg: as.id, Cwd: cwds[(i/3)%len(cwds)], KeyUnc: i%4 != 3,
+				cl := CLICase{Cmd: cliCmds[(i+ci)%len(cliCmds)], Key: ks.id, Arg: as.id, Cwd: cwds[(i/3)%len(cwds)], KeyUnc: i%4 != 3, KeySkip: (i/7)%2 == 1,
 					Extra: extras[(i/5+ci)%len(extras)], Pieces: 1 + i%3, SrcUnc: i%2 == 0}
 				c := Case{Size: "enum-cli", Fill: []string{"text", "rand", "zero"}[i%3], Len: []int{3000, 1, 70000}[(i/2)%3], Seed: uint64(k) * 7919, Mode: "compressed",
 					Cacnk: "oneshot", Raw: "valid", Corrupt: "otherdata", First: "compressed", N: 1 + k%3, Repair: k%2 == 0, Keep: true, CLI: &cl, CLIOnly: true}
